@@ -835,21 +835,26 @@ impl Element {
                 let model = self.model()?;
                 let version = self.min_version()?;
                 let mut element = self.0.write();
-                // set the DEST attribute first - this could fail if the target element has the wrong type
+                // set the reference text first - this fails without any effect if the path of the target is not acceptable here
+                let old_value = element.character_data();
+                let old_content = element.content.clone();
+                element.set_character_data(CharacterData::String(new_ref.clone()), version)?;
+                // set the DEST attribute - this could fail if the target element has the wrong type
                 if element
                     .set_attribute_internal(AttributeName::Dest, CharacterData::Enum(enum_item), version)
                     .is_ok()
                 {
                     // if this reference previously referenced some other element, update
-                    if let Some(CharacterData::String(old_ref)) = element.character_data() {
+                    if let Some(CharacterData::String(old_ref)) = old_value {
                         model.fix_reference_origins(&old_ref, &new_ref, self.downgrade());
                     } else {
                         // else initialise the new reference
                         model.add_reference_origin(&new_ref, self.downgrade());
                     }
-                    element.set_character_data(CharacterData::String(new_ref), version)?;
                     Ok(())
                 } else {
+                    // put the previous reference text back
+                    element.content = old_content;
                     Err(AutosarDataError::InvalidReference)
                 }
             } else {
